@@ -17,7 +17,7 @@ RULE = ('Every element and composite node of every shipped map file that loads (
 ASSUMPTIONS = ['when a value contains a control character only the control-character code (and length codes) are asserted: the implementation deliberately stops there',
                'a missing required composite may be reported with code 1 or 2, a whole not-used composite with 5, 10 or I10 (the property does not pin these)',
                'nodes whose data element is undefined (C16 finding) are skipped; maps that cannot be loaded are skipped']
-REQUIRED_COUNTERS = ['evals:exclusion-through-params', 'element-nodes', 'composite-nodes', 'evals:element', 'evals:composite', 'evals:with-qualifier', 'evals:with-exclusion', 'expected:1', 'expected:10', 'expected:4', 'expected:5',
+REQUIRED_COUNTERS = ['exclusion:single-other-set-with-related-name', 'evals:exclusion-through-params', 'element-nodes', 'composite-nodes', 'evals:element', 'evals:composite', 'evals:with-qualifier', 'evals:with-exclusion', 'expected:1', 'expected:10', 'expected:4', 'expected:5',
                      'expected:6', 'expected:7', 'expected:8', 'expected:9', 'expected:none']
 MIN_CASES = {'quick': 150000, 'thorough': 2000000}
 WATCHDOG_S = {'quick': 1200, 'thorough': 7200}
@@ -299,7 +299,12 @@ def exclusion_through_params(ctx, DE, CODES, files):
         if not ctx.mine(('excl', t, fn)):
             continue
         others = [x for x in allsets if x != t]
-        for setting, enforced_t in ((','.join(others), True), (t, False), (','.join(others[:2] + [t]), False), (None, True)):
+        # a single OTHER set named alone (the form the option takes most often): sets whose name contains t's name or is contained in it, and one more
+        related = [x for x in others if x in t or t in x]
+        singles = related + [others[(ji * 7) % len(others)]]
+        for x in related:
+            ctx.count('exclusion:single-other-set-with-related-name')
+        for setting, enforced_t in ((','.join(others), True), (t, False), (','.join(others[:2] + [t]), False), (None, True)) + tuple((x, True) for x in singles):
             param = pyx12.params.params()
             if setting is not None:
                 param.set('exclude_external_codes', setting)
